@@ -26,6 +26,10 @@ func main() {
 	quoted := flag.Bool("q", false, "sources are Go-quoted strings (without the outer quotes)")
 	jsonIn := flag.String("json", "", "read the input (bytesgen.Input JSON) from this file")
 	flag.Parse()
+	if os.Getenv("PROBE_LIMITS") != "" {
+		bytesgen.LimitStack()
+		bytesgen.LimitAddressSpace()
+	}
 	args := flag.Args()
 	unq := func(s string) []byte {
 		if *quoted {
